@@ -481,9 +481,7 @@ func (self *Analyzer) importItem(node pAst.ImportStatement) ast.AnalyzedImport {
 						item.Span,
 					)
 
-					if _, prevFound := self.currentModule.addTrigger(item.Ident, trigg); prevFound {
-						self.error(fmt.Sprintf("Trigger '%s' already exists in current scope", item.Ident), nil, item.Span)
-					}
+					// No placeholder is registered: it would have no callback type which its users could check
 					continue
 				}
 
